@@ -98,7 +98,7 @@ def tie(ctx, res, texts, label='end_to_end_bash', binary_max=None):
     compared with what the real `complgen --bash` binary writes (one process per grammar: slow), the others with
     the script the same library code returns inside cg-dump."""
     if binary_max is None:
-        binary_max = 150 if ctx.get('tier') != 'thorough' else 3000
+        binary_max = 100 if ctx.get('tier') != 'thorough' else 3000
     t0 = time.time()
     texts = [t for t in texts if usable(t)]
     with build.Lock():
